@@ -24,12 +24,12 @@ EXPLANATION = (
     "cancels, forgets and fires only when a call is pending; start() returns the local it stored and completes its state before the first call. "
     "(c) Cadence - STRUCTURAL: the time handed to _scheduleFrom is a clock reading taken at completion (def-use), one callLater(delay, self) per path, stored in "
     "self.call; FINITE-EXHAUSTIVE: _scheduleFrom is evaluated on symbolic times starttime + interval*(k + rho) (complete over the reals, cases interval = 0 / > 0) "
-    "and must land exactly on starttime + interval*(k+1) with a positive delay; BOUNDED second layer: the same function on a dyadic float grid incl. the "
+    "and must land exactly on starttime + interval*(k+1) with a positive delay; STRUCTURAL (def-use): the effectively-zero test `x == x + delay` has the clock reading `when` as x (over the reals every x is equivalent, in floating point only the reading callLater adds to is right); BOUNDED second layer: the same function on a dyadic float grid incl. the "
     "large-exponent absorption case (floating-point rounding has bounded evidence only - no finite abstraction of IEEE rounding is attempted). "
-    "(d) withCount - FINITE-EXHAUSTIVE: an induction over the history on symbolic times (first / later call x now True / False x same / later interval, and "
+    "(d) withCount - FINITE-EXHAUSTIVE: an induction over the history on symbolic times (first / later call / first call after reset(), where the last report lies less than one interval before the re-anchored starttime and int() vs floor differ; x now True / False x same / later interval, and "
     "interval = 0): the reported count is I(now) - I(baseline), reported exactly when positive, and a report moves the baseline to now, so counts telescope to "
     "the boundaries elapsed since start(); BOUNDED second layer: ~2500 concrete calls over clock-jump histories incl. late first calls. "
-    "Not decided: restart()/reset() interaction with _realLastTime, the clock implementation."
+    "Not decided: restart (stop then start again) interaction with _realLastTime, the clock implementation."
 )
 RULE_KINDS = {
     "*": "structural",
@@ -432,6 +432,42 @@ def check(ctx):
     with section(ctx, '(c) finite-domain evaluation of the delay and of the skip counter'):
         _eval_schedule(ctx, f_sched, meths)
 
+    with section(ctx, "(c) the effectively-zero test is about the clock reading"):
+        # Over the reals `x == x + u` means u == 0 whatever x is (the symbolic rule cannot tell them apart); in floating point it asks whether u
+        # is absorbed by x.  callLater(u) adds u to the clock reading, so the test must be made against the time handed in (`when`), not against
+        # a smaller quantity derived from it (e.g. the elapsed time), or a remainder that cannot move the clock is scheduled as it is and the
+        # function is called again at the same clock reading.  Structural def-use on the operands; the float grid keeps a witness.
+        qa = f"{Q}._scheduleFrom"
+        when_param = f_sched.args.args[1].arg if len(f_sched.args.args) > 1 else None
+        ctx.need(when_param, "_scheduleFrom(self, when)")
+        tests = []
+        for n in ast.walk(f_sched):
+            if isinstance(n, ast.Compare) and len(n.ops) == 1 and isinstance(n.ops[0], (ast.Eq, ast.NotEq, ast.LtE, ast.GtE, ast.Lt, ast.Gt)):
+                for x, y in ((n.left, n.comparators[0]), (n.comparators[0], n.left)):
+                    if isinstance(y, ast.BinOp) and isinstance(y.op, ast.Add) and (src(y.left) == src(x) or src(y.right) == src(x)) and not isinstance(x, ast.Constant):
+                        tests.append((n, x))
+        if not tests:
+            ctx.note("cadence/absorption-test-on-clock-reading: no `x == x + delay` test recognised in _scheduleFrom; clause left to the bounded rule "
+                     "cadence/delay-is-next-boundary (large-exponent cases)")
+        for n, x in tests:
+            base = x
+            seen = set()
+            while isinstance(base, ast.Name) and base.id != when_param and base.id not in seen:   # follow pure aliases  t = when
+                seen.add(base.id)
+                owner = next((fn for fn in [f_sched] + [m for m in ast.walk(f_sched) if isinstance(m, (ast.FunctionDef, ast.AsyncFunctionDef)) and m is not f_sched]
+                              if any(isinstance(st, (ast.Assign, ast.AnnAssign)) and any(isinstance(t, ast.Name) and t.id == base.id for t, v in assign_pairs(st)) for st in body_walk(fn))), None)
+                if owner is None:
+                    break
+                defs = [v for st in body_walk(owner) for t, v in assign_pairs(st) if isinstance(t, ast.Name) and t.id == base.id]
+                if len(defs) != 1 or not isinstance(defs[0], ast.Name):
+                    break
+                base = defs[0]
+            ok = isinstance(base, ast.Name) and base.id == when_param
+            ctx.check(ok, "cadence/absorption-test-on-clock-reading", ctx.construct(qa, "<effectively-zero test>"),
+                      f"the test `{src(n)}` asks whether the remaining time is absorbed by `{src(x)}`, not by the clock reading `{when_param}` that callLater adds it to: "
+                      "a remainder too small to move the clock (but not too small for the smaller operand) is scheduled as it is and the function is called again "
+                      "at the same clock reading instead of one interval later")
+
     with section(ctx, "(c) symbolic evaluation of the delay over all times"):
         _sym_schedule(ctx, f_sched, meths)
 
@@ -503,21 +539,29 @@ def _sym_counter(ctx, f_wc, meths):
         for crossed in (False, True):
             cases.append(("first call", ras, crossed))
             cases.append(("later call", ras, crossed))
+            # step C: reset() re-anchored starttime after the last report L, so L lies less than one interval BEFORE starttime
+            # (reset is only possible while a call is pending, i.e. within one interval of the last call): elapsed is negative there,
+            # where truncation toward zero and floor differ.  No boundary of the new schedule lies in (L, starttime].
+            cases.append(("first call after reset()", ras, crossed))
     for step, ras, crossed in cases:
         label = (f"{step}, now={ras}, called in {'a later interval than' if crossed else 'the same interval as'} "
                  f"{'starttime' if step == 'first call' else 'the last report'}")
-        if step == "first call":
+        if step == "first call after reset()":
+            label = f"{step}, now={ras}, called {'after' if crossed else 'before'} the first boundary of the new schedule"
+        if step in ("first call", "first call after reset()"):
             subst = {"n": ({1: 1, "d": 1} if crossed else {1: 0})}
-            if ras and not crossed:
-                subst = {"n": {1: 0}}
         else:
             subst = {"n": ({"m": 1, 1: 1, "d": 1} if crossed else {"m": 1})}
-        env = SymEnv(ints={"n", "m", "d"}, fracs={"rn", "rm"}, subst=subst)
+        env = SymEnv(ints={"n", "m", "d"}, fracs={"rn", "rm"}, subst=subst, pfracs={"sigma"})
         i_ = Lin(env, None, {1: 1})
         s_ = Lin(env, None, None, 1)
         now = s_ + Lin(env, None, {"n": 1, "rn": 1})
-        last = None if step == "first call" else s_ + Lin(env, None, {"m": 1, "rm": 1})
-        expect = Lin(env, {"n": 1, 1: (1 if ras else 0)}) if step == "first call" else Lin(env, {"n": 1, "m": -1})
+        if step == "first call":
+            last, expect = None, Lin(env, {"n": 1, 1: (1 if ras else 0)})
+        elif step == "later call":
+            last, expect = s_ + Lin(env, None, {"m": 1, "rm": 1}), Lin(env, {"n": 1, "m": -1})
+        else:
+            last, expect = s_ - Lin(env, None, {"sigma": 1}), Lin(env, {"n": 1})   # L = starttime - interval*sigma, 0 < sigma < 1
         sr = SelfRef({"interval": i_, "starttime": s_, "_runAtStart": ras, "_realLastTime": last})
         got = []
         siblings = {"__outer__": None}
@@ -569,6 +613,8 @@ def _eval_schedule(ctx, f_sched, meths):
     cases.append((0.0, 0.0, 0.0, True))
     cases.append((3.0, 0.0, 2.0 ** 53, False))       # untilNextInterval (1.0) is absorbed by when
     cases.append((3.0, 0.0, 2.0 ** 53 + 2.0, False))
+    cases.append((1.0, 2.0 ** -26, 2.0 ** 27, False))   # remainder 2**-26 moves the elapsed time but not the clock reading 2**27
+    cases.append((0.5, 2.0 ** -30, 2.0 ** 24, False))
     bad = None
     n = 0
     for interval, start, when, exact in cases:
@@ -664,6 +710,38 @@ def _eval_counter(ctx, f_wc, meths):
                             bad = (interval, start, ras, now[0], f"counts {got} sum to {sum(got)}, boundaries elapsed {expect}")
                     if bad:
                         break
+    # histories with reset(): reset() only re-anchors starttime (who-may-write/starttime) while a call is pending; afterwards the
+    # counts must sum to the boundaries of the new schedule
+    for interval in (0.5, 1.0, 1.5):
+        for ras in (True, False):
+            for frac in (0.25, 0.5, 0.75):
+                if bad:
+                    break
+                start = 0.0
+                sr = SelfRef({"interval": interval, "starttime": start, "_runAtStart": ras, "_realLastTime": None})
+                now = [start]
+                got = []
+                it = Interp(sr, meths, {"self.clock.seconds": lambda now=now: now[0], cb_name: lambda c, got=got: got.append(c)}, self_names=tuple(self_names))
+                times = ([start] if ras else []) + [start + interval * k for k in (1, 2, 3)]
+                try:
+                    for t in times:
+                        now[0] = t
+                        it.budget = 4000
+                        it.call_function(counter, [], outer=siblings)
+                    base_sum = sum(got)
+                    r = times[-1] + frac * interval          # reset() here
+                    sr.attrs["starttime"] = r
+                    for k in (1, 4, 4.5, 9):
+                        now[0] = r + k * interval
+                        it.budget = 4000
+                        it.call_function(counter, [], outer=siblings)
+                        n += 1
+                        if sum(got) != base_sum + int(k) and bad is None:
+                            bad = (interval, start, ras, now[0], f"after reset() at t={r}: counts {got} sum to {sum(got)}, boundaries elapsed {base_sum + int(k)}")
+                except EvalUnsupported as e:
+                    raise AnalysisError(f"C10: withCount counter is outside the evaluable subset: {e}")
+                except EvalAssert as e:
+                    bad = bad or (interval, start, ras, now[0], f"assert {e} fails")
     ctx.check(bad is None, "count/sum-equals-boundaries", qw + " | <counter>",
               "" if bad is None else f"interval={bad[0]} starttime={bad[1]} now={bad[2]} at t={bad[3]}: {bad[4]}", detail=f"{n} evaluations")
     ctx.extra["counter_evaluations"] = n
@@ -690,6 +768,10 @@ MUTANTS = [
            expect_rule="cadence/delay-is-next-boundary"),
     Mutant("delay-drops-absorption-check", TASK, "            if when == when + untilNextInterval:\n", "            if untilNextInterval == 0:\n",
            expect_rule="cadence/delay-is-next-boundary"),
+    Mutant("absorption-measured-against-elapsed-time", TASK, "            if when == when + untilNextInterval:\n", "            if untilNextInterval + runningFor == runningFor:\n",
+           expect_rule="cadence/absorption-test-on-clock-reading"),
+    Mutant("interval-number-rounded-down-instead-of-toward-zero", TASK, "        intervalNum = int(elapsedTime / self.interval)\n", "        intervalNum = elapsedTime // self.interval\n",
+           expect_rule="count/telescoping-symbolic"),
     Mutant("count-boundary-off-by-one", TASK, "            if count > 0:\n                self._realLastTime = now\n", "            if count > 1:\n                self._realLastTime = now\n",
            expect_rule="count/sum-equals-boundaries"),
     Mutant("count-forgets-immediate-call", TASK, "                    lastTime -= self.interval\n", "                    pass\n",
@@ -741,6 +823,8 @@ SILENT = [
     Silent("counter-comparison-flipped", TASK, "            if count > 0:\n                self._realLastTime = now\n", "            if not count <= 0:\n                self._realLastTime = now\n"),
 
     # --- shapes of the independent refactor set (helpers extracted / inlined, sibling closures, one call site per branch)
+    Silent("absorption-test-through-alias-and-flipped", TASK, "            if when == when + untilNextInterval:\n",
+           "            reference = when\n            if reference + untilNextInterval == reference:\n"),
     Silent("take-helper-extracted", TASK, _EB, "            self.running = False\n            self._detachDeferred().errback(failure)\n",
            more=[(TASK, "    def reset(self) -> None:\n", "    def _detachDeferred(self):\n        waiting, self._deferred = self._deferred, None\n        assert waiting is not None\n        return waiting\n\n    def reset(self) -> None:\n")]),
     Silent("counter-uses-sibling-closure", TASK,
